@@ -13,7 +13,10 @@ vars == <<pc, c, o, expect>>
 MCClasses == {"NaN", "zero", "one", "nonint"}
 SigsMC == { [ar |-> 0, ip |-> <<>>], [ar |-> 1, ip |-> <<>>], [ar |-> 1, ip |-> <<1>>],
             [ar |-> 2, ip |-> <<>>], [ar |-> 2, ip |-> <<1>>], [ar |-> 2, ip |-> <<1, 2>>] }
-NoOut == [val |-> "fin", err |-> "none", dn |-> <<>>, hn |-> <<>>, du |-> <<>>, hu |-> <<>>, det |-> TRUE]
+NoOut == [val |-> "fin", err |-> "none", dn |-> <<>>, hn |-> <<>>, du |-> <<>>, hu |-> <<>>, det |-> TRUE,
+          dl |-> <<>>, dr |-> <<>>, hl |-> <<>>, hr |-> <<>>, hlr |-> <<>>, hrr |-> <<>>]
+\* measured agreement: not measured ("unk" everywhere) or measured and confirmed on both sides
+Same(n, v) == [i \in 1..n |-> v]
 NH(k) == (k.ar * (k.ar + 1)) \div 2
 
 CasesMC == { k \in [id : {1}, fn : {"f"}, ar : 0..2, ip : {<<>>, <<1>>, <<1, 2>>}, rnd : BOOLEAN, str : {FALSE},
@@ -34,7 +37,13 @@ Outcomes(k) == [val : {"fin", "inf", "nan"}, err : {"none", "eval", "deriv", "he
                 hn : IF WantH(k) THEN AtMostOne(NH(k)) ELSE {<<>>},
                 du : IF WantD(k) THEN AtMostOne(k.ar) ELSE {<<>>},
                 hu : IF WantH(k) THEN {[i \in 1..NH(k) |-> FALSE]} ELSE {<<>>},
-                det : BOOLEAN]
+                det : BOOLEAN,
+                dl : IF WantD(k) THEN {Same(k.ar, "unk"), Same(k.ar, "ok")} ELSE {<<>>},
+                dr : IF WantD(k) THEN {Same(k.ar, "unk"), Same(k.ar, "ok")} ELSE {<<>>},
+                hl : IF WantH(k) THEN {Same(NH(k), "unk")} ELSE {<<>>},
+                hr : IF WantH(k) THEN {Same(NH(k), "unk"), Same(NH(k), "ok")} ELSE {<<>>},
+                hlr : IF WantH(k) THEN {Same(NH(k), "unk")} ELSE {<<>>},
+                hrr : IF WantH(k) THEN {Same(NH(k), "unk")} ELSE {<<>>}]
 \* a clean, error-free answer
 CleanOuts(k) == {r \in Outcomes(k) : /\ r.err = "none" /\ r.val # "nan" /\ r.det
                                       /\ \A i \in 1..Len(r.dn) : ~r.dn[i] /\ ~r.du[i]
@@ -81,6 +90,12 @@ Corrupt ==
         /\ MustReportDeriv(c) /\ ~MustReport(c)
         /\ o' \in CleanOuts(c)
         /\ expect' = "intderiv"
+     \/ \* a wrong formula, or a derivative returned at a kink: one side contradicts
+        /\ o.err = "none" /\ WantD(c) /\ \E i \in 1..c.ar : ~Const(c, i) /\ (o' = [o EXCEPT !.dl[i] = "bad"] \/ o' = [o EXCEPT !.dr[i] = "bad"])
+        /\ expect' = "agree"
+     \/ /\ o.err = "none" /\ WantH(c)
+        /\ \E j \in 1..c.ar : \E i \in 1..j : ~Const(c, i) /\ ~Const(c, j) /\ o' = [o EXCEPT !.hr[HesIdx(i, j)] = "bad", !.hrr[HesIdxR(c.ar, i, j)] = "bad"]
+        /\ expect' = "agree"
      \/ \* hidden state
         ~c.rnd /\ o' = [o EXCEPT !.det = FALSE] /\ expect' = "determinism"
      \/ \* partials array of the wrong length
